@@ -341,3 +341,259 @@ def judge(ctx, pid, sessions, verdict, ops, what):
     ctx.notes["sessions_accepted"] = acc
     ctx.notes["sessions_ending_outside_the_serializer_domain"] = dom
     ctx.notes["sessions_rejected_at_an_event_judged_by_another_property"] = rej_other
+
+
+# ---- specification -> code: every transition of the bounded model MC_System, stepped through the real library ------
+
+OP_OWNER = {"getattr": "C18", "setattr": "C18", "delattr": "C18", "setkey": "C18", "delkey": "C18", "appendchart": "C18",
+            "removechart": "C18", "swapcharts": "C18", "setchartitem": "C18", "delchartitem": "C18", "setchartfield": "C18",
+            "save": "C04", "reopen": "C04", "tossc": "C16", "tosm": "C17", "readnotes": "C07", "countnotes": "C09",
+            "readtiming": "C14"}
+MC_INVS = ["InvTypeOK", "InvSaveReopen", "InvViews", "InvConvertRoundTrip"]
+MC_ACTIONS = {"edit": ["setkey", "delkey", "getattr", "setattr", "delattr", "appendchart", "removechart",
+                       "readnotes", "countnotes", "readtiming"],
+              "save": ["setkey", "save", "reopen", "appendchart"],
+              "tossc": ["setkey", "tossc", "save", "reopen"],
+              "tosm": ["setkey", "tosm", "save", "reopen"]}
+
+
+def mc_cfg(fmt0, focus, items, charts, depth, emit):
+    return ("SPECIFICATION Spec\nCONSTANTS Fmt0 = \"%s\" Focus = \"%s\" MaxItems = %d MaxCharts = %d MaxDepth = %d DoEmit = %s\n"
+            "VIEW View\nCONSTRAINT Bound\nACTION_CONSTRAINT Emit\n" % (fmt0, focus, items, charts, depth, "TRUE" if emit else "FALSE")
+            + "".join("INVARIANT %s\n" % i for i in MC_INVS))
+
+
+class _Mismatch(Exception):
+    def __init__(self, at, what):
+        Exception.__init__(self, what)
+        self.at = at
+        self.what = what
+
+
+def _mk_chart(fmt, ch):
+    from simfile.sm import SMChart
+    from simfile.ssc import SSCChart
+    if fmt == "sm":
+        c = SMChart.from_msd([cc.fresh(f) for f in ch["fields"]])
+        c.extradata = [cc.fresh(x) for x in ch["extra"]] or None
+        return c
+    c = SSCChart()
+    for e in ch:
+        c[cc.fresh(e["k"])] = cc.fresh(e["v"])
+    return c
+
+
+def _mk_simfile(fmt, items):
+    from simfile.sm import SMSimfile
+    from simfile.ssc import SSCSimfile
+    sf = (SMSimfile if fmt == "sm" else SSCSimfile)(string="")
+    for e in items:
+        sf[cc.fresh(e["k"])] = cc.fresh(e["v"])
+    return sf
+
+
+def replay_path(fmt0, rec):
+    """step the real library along rec["hist"]; every logged result and the final state must be the specification's.
+    -> None, or (index of the offending call, text)"""
+    import simfile
+    from simfile.convert import sm_to_ssc, ssc_to_sm
+    from simfile.notes import NoteData
+    from simfile.notes import count as cnt
+    from simfile.timing import TimingData
+    from fractions import Fraction
+    from decimal import Decimal
+    from . import notedata_common as nc
+    from . import convert_common as cv
+    sf = _mk_simfile(fmt0, [])
+    st = {"disk": None}
+
+    def res_of(fn, *exc):
+        try:
+            fn()
+            return "ok"
+        except exc as e:  # noqa
+            return type(e).__name__
+    try:
+        for at, o in enumerate(rec["hist"]):
+            op = o["op"]
+            fmt = cc.fmt_of(sf)
+            if op == "setkey":
+                sf[cc.fresh(o["k"])] = cc.fresh(o["v"])
+            elif op == "delkey":
+                k = cc.fresh(o["k"])
+                r = res_of(lambda: sf.__delitem__(k), KeyError)
+                if r != o["res"]:
+                    raise _Mismatch(at, "del sf[%r]: %s, the specification says %s" % (k, r, o["res"]))
+            elif op == "getattr":
+                got = getattr(sf, uncps(o["name"]).lower())
+                if cps(got) != o["res"]:
+                    raise _Mismatch(at, "sf.%s reads %r, the specification says %r" % (uncps(o["name"]).lower(), got, uncps(o["res"])))
+            elif op == "setattr":
+                setattr(sf, uncps(o["name"]).lower(), cc.fresh(o["v"]))
+            elif op == "delattr":
+                name = uncps(o["name"]).lower()
+                r = res_of(lambda: delattr(sf, name), KeyError)
+                if r != o["res"]:
+                    raise _Mismatch(at, "del sf.%s: %s, the specification says %s" % (name, r, o["res"]))
+            elif op == "appendchart":
+                sf.charts.append(_mk_chart(fmt, o["chart"]))
+            elif op == "removechart":
+                sf.charts.pop(o["j"] - 1)
+            elif op == "swapcharts":
+                i, j = o["i"] - 1, o["j"] - 1
+                sf.charts[i], sf.charts[j] = sf.charts[j], sf.charts[i]
+            elif op == "setchartitem":
+                c = sf.charts[o["j"] - 1]
+                name = uncps(o["name"])
+                if name == "NOTES":
+                    c.notes = cc.fresh(o["v"])
+                else:
+                    c[name] = cc.fresh(o["v"])
+            elif op == "delchartitem":
+                c = sf.charts[o["j"] - 1]
+                k = uncps(o["k"])
+                r = res_of(lambda: c.__delitem__(k), KeyError)
+                if r != o["res"]:
+                    raise _Mismatch(at, "del chart[%r]: %s, the specification says %s" % (k, r, o["res"]))
+            elif op == "setchartfield":
+                c = sf.charts[o["j"] - 1]
+                if (at + o["f"]) % 2:
+                    setattr(c, SMF[o["f"] - 1], cc.fresh(o["v"]))
+                else:
+                    c[SMF[o["f"] - 1].upper()] = cc.fresh(o["v"])
+            elif op == "save":
+                text = str(sf)
+                st["disk"] = text
+                re_ = type(sf)(string=text)
+                if cc.proj(re_) != o["reload"]:
+                    raise _Mismatch(at, "the saved text re-opens as %s, the specification says %s" % (
+                        json.dumps(cc.proj(re_))[:300], json.dumps(o["reload"])[:300]))
+            elif op == "reopen":
+                sf = simfile.loads(st["disk"]) if o["detect"] else type(sf)(string=st["disk"])
+            elif op == "tossc":
+                sf = sm_to_ssc(sf, simfile_template=_mk_simfile("ssc", o["tmpl"]), chart_template=_mk_chart("ssc", o["ctmpl"]))
+            elif op == "tosm":
+                beh = cv.beh_enum([(b["kind"], b["b"]) for b in o["beh"]])
+                try:
+                    out = ssc_to_sm(sf, simfile_template=_mk_simfile("sm", o["tmpl"]), chart_template=_mk_chart("sm", o["ctmpl"]),
+                                    invalid_property_behaviors=beh)
+                    r, msg = "ok", ""
+                except Exception as e:  # noqa
+                    out, r, msg = None, type(e).__name__, str(e)
+                if r != o["st"]:
+                    raise _Mismatch(at, "ssc_to_sm under %s: %s, the specification says %s" % (json.dumps(o["beh"]), r, o["st"]))
+                if r == "InvalidPropertyException" and uncps(o["key"]) not in msg:
+                    raise _Mismatch(at, "ssc_to_sm names %r, the first property that must be refused is %s" % (msg, uncps(o["key"])))
+                if out is not None:
+                    sf = out
+            elif op == "readnotes":
+                got = [nc.proj_note(x) for x in NoteData(sf.charts[o["j"] - 1])]
+                if got != o["res"]:
+                    raise _Mismatch(at, "NoteData(chart) yields %s, the specification says %s" % (json.dumps(got)[:300], json.dumps(o["res"])[:300]))
+            elif op == "countnotes":
+                nd = NoteData(sf.charts[o["j"] - 1])
+                got = {"steps": cnt.count_steps(nd), "jumps": cnt.count_jumps(nd), "hands": cnt.count_hands(nd), "mines": cnt.count_mines(nd)}
+                if got != o["res"]:
+                    raise _Mismatch(at, "counts %s, the specification says %s" % (json.dumps(got), json.dumps(o["res"])))
+            elif op == "readtiming":
+                td = TimingData(sf)
+                got = [(Fraction(e.beat), Decimal(e.value)) for e in getattr(td, uncps(o["name"]).lower())]
+                want = [(Fraction(e["k"], 48), Decimal(e["v"]["m"]).scaleb(-e["v"]["e"])) for e in o["evs"]]
+                if got != want:
+                    raise _Mismatch(at, "TimingData.%s is %r, the specification says %r" % (uncps(o["name"]).lower(), got, want))
+            else:
+                raise core.MachineryError("unknown op %s" % op)
+        at = len(rec["hist"]) - 1
+        if after(sf) != rec["obj"]:
+            raise _Mismatch(at, "state after the call is %s, the specification says %s" % (json.dumps(after(sf))[:400], json.dumps(rec["obj"])[:400]))
+    except _Mismatch as m:
+        return (m.at, m.what)
+    except Exception as e:  # noqa
+        return (at, "%s: %s" % (type(e).__name__, e))
+    return None
+
+
+def _replay_job(job):
+    return replay_path(*job)
+
+
+def mc_system(ctx, pid, runs, ops=None):
+    """runs: list of (fmt0, focus, items, charts, depth).  TLC explores each bounded model exhaustively with the
+    system invariants; every transition it took is then stepped through the real library.  A mismatch is reported by
+    the check that owns the kind of the offending call (OP_OWNER)."""
+    jobs = [dict(module="MC_System", cfg=mc_cfg(f, fo, it, ch, d, True), dirs=DIRS, workers=max(2, 16 // len(runs)),
+                 timeout=3000, heap="3g") for (f, fo, it, ch, d) in runs]
+    results = tlc.run_many(jobs, parallel=len(jobs))
+    total = other = 0
+    for (f, fo, it, ch, d), res in zip(runs, results):
+        name = "MC_System %s/%s items<=%d charts<=%d depth<=%d" % (f, fo, it, ch, d)
+        if res.invariant_violated:
+            ctx.violation("%s:mc-system:%s" % (pid, res.invariant_violated),
+                          "the specification's own system invariant %s fails in the bounded model %s" % (res.invariant_violated, name),
+                          {"mode": "mc-system-invariant", "run": [f, fo, it, ch, d]})
+            continue
+        tlc.require_ok(res, name)
+        ctx.add_tlc(name, res)
+        recs = res.printed
+        taken = {}
+        for r in recs:
+            taken[r["hist"][-1]["op"]] = taken.get(r["hist"][-1]["op"], 0) + 1
+        ctx.tlc_runs[-1]["transitions_by_call"] = taken
+        for a in MC_ACTIONS[fo]:        # vacuity: every call kind of this focus was explored (and is replayed below)
+            if not taken.get(a):
+                raise core.MachineryError("vacuity: call %s never taken in %s" % (a, name))
+        out = core.pmap(_replay_job, [(f, r) for r in recs], chunk=100)
+        for r, bad in zip(recs, out):
+            total += 1
+            ctx.traces += 1
+            ctx.evaluations += len(r["hist"])
+            if bad is None:
+                continue
+            at, what = bad
+            op = r["hist"][at]["op"]
+            if OP_OWNER.get(op) != pid and (ops is None or op not in ops):
+                other += 1
+                continue
+            calls = [{k: (uncps(x) if isinstance(x, list) and (not x or isinstance(x[0], int)) else x) for k, x in o.items()
+                      if k not in ("tmpl", "ctmpl", "reload", "res", "evs")} for o in r["hist"][:at + 1]]
+            ctx.violation("%s:mc-system:%s" % (pid, op),
+                          "a transition of the bounded System model does not replay on the library (%s, call %d of the path): %s; calls: %s" % (
+                              name, at + 1, what, json.dumps(calls)[:500]),
+                          {"mode": "mc-system", "fmt0": f, "rec": r})
+        ctx.sample({"mc_system": name, "path": [o["op"] for o in recs[len(recs) // 2]["hist"]]})
+    ctx.notes["mc_system_transitions_replayed"] = ctx.notes.get("mc_system_transitions_replayed", 0) + total
+    ctx.notes["mc_system_mismatches_owned_by_another_property"] = other
+
+
+MC_RUNS = {  # pid -> (quick runs, thorough runs): (fmt0, focus, MaxItems, MaxCharts, MaxDepth)
+    "C18": ([("sm", "edit", 2, 1, 4), ("ssc", "edit", 2, 1, 4)], [("sm", "edit", 3, 2, 5), ("ssc", "edit", 3, 1, 5)]),
+    "C04": ([("sm", "save", 2, 1, 4), ("ssc", "save", 2, 1, 4)], [("sm", "save", 3, 2, 5), ("ssc", "save", 3, 1, 5)]),
+    "C16": ([("sm", "tossc", 2, 1, 4)], [("sm", "tossc", 3, 1, 5)]),
+    "C17": ([("ssc", "tosm", 2, 1, 3)], [("ssc", "tosm", 2, 1, 5)]),
+    "C07": ([("sm", "edit", 1, 1, 3), ("ssc", "edit", 1, 1, 3)], [("sm", "edit", 2, 2, 4), ("ssc", "edit", 2, 1, 4)]),
+    "C09": ([("sm", "edit", 1, 1, 3), ("ssc", "edit", 1, 1, 3)], [("sm", "edit", 2, 2, 4), ("ssc", "edit", 2, 1, 4)]),
+    "C14": ([("sm", "edit", 2, 1, 3), ("ssc", "edit", 2, 0, 3)], [("sm", "edit", 3, 1, 4), ("ssc", "edit", 3, 0, 4)]),
+}
+
+
+def mc_for(ctx, pid):
+    q, t = MC_RUNS[pid]
+    mc_system(ctx, pid, q if ctx.quick else t)
+
+
+def replay(rec):
+    """./check CNN --replay file, for violations found by the System engine"""
+    case = rec["case"]
+    print(rec.get("what"))
+    if case.get("mode") == "mc-system":
+        bad = replay_path(case["fmt0"], case["rec"])
+        for i, o in enumerate(case["rec"]["hist"]):
+            print("  call %d: %s" % (i + 1, json.dumps({k: (uncps(x) if isinstance(x, list) and (not x or isinstance(x[0], int)) else x)
+                                                            for k, x in o.items() if k not in ("tmpl", "ctmpl", "reload")})[:300]))
+        if bad is None:
+            print("replays without a mismatch on this tree")
+            return 0
+        print("mismatch at call %d: %s" % (bad[0] + 1, bad[1]))
+        return 1
+    print("re-run the check to regenerate this %s case (seeded, deterministic)" % case.get("mode"))
+    return 1
